@@ -193,6 +193,40 @@ def r_eval(e, env):
     return bool(r_mpt.eval_expr(e, env))
 
 
+def resume_end_rule(rep, u, names=("xml_get_val_arr", "xml_get_val_ns_arr")):
+    """R-PROGRESS (resumable scanners): the scanners return, through *next_pos, where the next call shall continue; after the
+    last element that is xml_data + xml_data_size.  A call that is handed exactly that position must not start again from
+    the beginning (its callers loop `while (0 == get(..., &next_pos, ...)) count++`): evaluated at entry with
+    *next_pos = xml_data + xml_data_size, the scan position must not be set to xml_data."""
+    from rules import r_stride
+    n = 0
+    for nm in names:
+        fn = u.fn(nm)
+        if fn is None or not fn.has_cfg:
+            raise driver.AnalysisBroken("anchor %s vanished" % nm)
+        rep.functions.add(nm)
+        D, NP = 0x10000, 0x7000
+        pe = r_stride.PE(u)
+        bind = {p_["n"]: 0x9000 + 16 * i for i, p_ in enumerate(fn.params)}
+        bind.update({"xml_data": D, "xml_data_size": 8, "next_pos": NP, "*(next_pos)": D + 8, "tag_arr_count": 1})
+        ev, ret = pe.trace(fn, bind)
+        restarted = None
+        for e, b in ev:
+            for x, _ in walk(e):
+                if x.get("k") == "bin" and x["op"] == "=" and core.strip_casts(x["x"]).get("k") == "ref" and key(core.strip_casts(x["y"])) == "xml_data":
+                    restarted = x
+        n += 1
+        desc = "%s: a resume position equal to the end of the data ends the enumeration instead of restarting it" % nm
+        if restarted is not None:
+            rep.violated("R-PROGRESS", fn, "resume-at-end", desc, "with *next_pos = xml_data + xml_data_size the scan position is set to xml_data at line %s: the "
+                         "caller's counting loop finds the same elements again and never ends" % restarted.get("ln"), restarted.get("ln"))
+        elif isinstance(ret, str) and not ev:
+            rep.undecided("R-PROGRESS", fn, "resume-at-end", desc, ret)
+        else:
+            rep.proved("R-PROGRESS", fn, "resume-at-end", desc, "returns %s" % (ret if not isinstance(ret, str) else "without restarting"))
+    return n
+
+
 def run(rep, tier):
     us = driver.load_units(specs())
     rep.use_units(us)
@@ -224,6 +258,7 @@ def run(rep, tier):
     # (shared with C17, where the rule lives)
     from props import c17
     rep.floor("INI slot stores and reservations", c17.slot_dominance(rep, us["src/utils/ini.c"]), 4)
+    rep.floor("resumable scanners", resume_end_rule(rep, us["src/utils/xml.c"]), 2)
     rep.floor("TLV header buffers", asn_extent_rule(rep, us["utils/asn1.h"], sizes=(2, 3) if tier == "quick" else (2, 3, 4)), 800)
     rep.floor("functions analysed", nfn, 130)
     rep.floor("tracked memory accesses", total, 300)
